@@ -95,3 +95,11 @@ mod target_specific {
 }
 
 pub(crate) use target_specific::SystemTime;
+
+#[cfg(feature = "verif_hooks")]
+pub mod verif_primitives;
+#[cfg(feature = "verif_hooks")]
+pub use self::verif_primitives::{
+    interval, sleep, spawn, spawn_local, spawn_named, timeout, Instant, Interval, JoinHandle,
+    JoinSet,
+};
